@@ -195,10 +195,10 @@ let () =
                  let used = List.length !answers - List.length rest in
                  answers := rest; tstate := Some s';
                  let (pa, pb) = s'.ts_pay in
-                 Printf.printf "RET %s %h %h %d %d %d %h %h\n" (st_name st) (float_of_q s'.ts_t) (float_of_q s'.ts_tadv) (b2i s'.ts_over) used
-                   (b2i (List.for_all use_okb uses)) (float_of_q pa) (float_of_q pb);
+                 Printf.printf "RET %s %h %h %d %d %d %h %h %d\n" (st_name st) (float_of_q s'.ts_t) (float_of_q s'.ts_tadv) (b2i s'.ts_over) used
+                   (b2i (List.for_all use_coreb uses)) (float_of_q pa) (float_of_q pb) (b2i (List.for_all use_monob uses));
                  List.iter (fun u -> Printf.printf "U %h %h %h %h %h %d %d\n" (float_of_q u.u_tcur) (float_of_ti u.u_nextEv) (float_of_ti u.u_nextRep)
-                               (float_of_ti u.u_report) (float_of_ti u.u_event) (b2i u.u_inclEv) (b2i (use_okb u))) uses;
+                               (float_of_ti u.u_report) (float_of_ti u.u_event) (b2i u.u_inclEv) (b2i (use_coreb u))) uses;
                  List.iter (fun k -> let (qa, qb) = k.k_in in
                              Printf.printf "H %d %s %h %h %h\n" (int_of_nat k.k_id) (cause_name k.k_cause) (float_of_q k.k_time) (float_of_q qa) (float_of_q qb)) log;
                  Printf.printf "ENDLOG\n"
